@@ -394,3 +394,26 @@ def _negate(c):
         if inv is not None:
             return ast.fix_missing_locations(ast.Compare(left=c.left, ops=[inv()], comparators=c.comparators))
     return None
+
+
+def nearest_def(node, name):
+    """value of the closest preceding `name = value` in the statement list that contains node (or an
+    enclosing one), or None"""
+    child, p = node, getattr(node, "_parent", None)
+    while p is not None:
+        for field in ("body", "orelse", "finalbody"):
+            lst = getattr(p, field, None)
+            if isinstance(lst, list) and child in lst:
+                for st in reversed(lst[: lst.index(child)]):
+                    if isinstance(st, ast.Assign) and len(st.targets) == 1:
+                        t = st.targets[0]
+                        if isinstance(t, ast.Name) and t.id == name:
+                            return st.value
+                        if isinstance(t, ast.Tuple) and isinstance(st.value, ast.Tuple) and len(t.elts) == len(st.value.elts):
+                            for a, b in zip(t.elts, st.value.elts):
+                                if isinstance(a, ast.Name) and a.id == name:
+                                    return b
+        if isinstance(p, (ast.FunctionDef, ast.Lambda)):
+            return None
+        child, p = p, getattr(p, "_parent", None)
+    return None
